@@ -22,6 +22,7 @@ def run(ck, fb):
     r13k(ck, fb)
     r13l(ck, fb)
     r13m(ck, fb)
+    r13n(ck, fb)
 
 
 def _run0(ck, fb):
@@ -568,3 +569,45 @@ def r13m(ck, fb, R='R13m'):
                    'of an instance that is no longer persistent (registered again over gRPC or switched to ephemeral and heart-beating)' % nm.split('::')[-1],
                    'guarded by ephemeral == false %s' % ('at the call' if at_site else 'inside'))
     ck.floor(R, 'health-flipping calls in update_perpetual_health', n, 2)
+
+
+def r13n(ck, fb, R='R13n'):
+    ck.rule(R, '"and then everywhere": what one time_check round decided for a service reaches the other nodes in full - in '
+               'NamingActor::time_check_notify the removals are handed to time_check_sync_remove_info_to_cluster exactly when the remove list is not '
+               'empty and the unhealthy transitions to time_check_sync_update_info_to_cluster exactly when the update list is not empty, each whatever '
+               'the other list holds (truth table over the two emptiness tests, by walking the compiled function under each of the 4 assignments). '
+               'A round that removes X and marks Y unhealthy otherwise leaves Y healthy on every other node until its removal arrives')
+    b = ck.body(NA + 'time_check_notify', R)
+    if not b:
+        return
+    names = {b.local_name(l): l for l in range(1, b.argc + 1)}
+    if 'remove_list' not in names or 'update_list' not in names:
+        ck.bad(R, 'time_check_notify:parameters', b.where(), 'time_check_notify no longer takes remove_list / update_list: the rule does not know this function')
+        return
+    inv = {names['remove_list']: 'rm_empty', names['update_list']: 'up_empty'}
+
+    def classify(d, term):
+        if d['k'] == 'call' and re.search(r'::is_empty$', cfg.callee_name(d['term']) or '') and d['term']['args']:
+            o = cfg.describe_operand(b, d['term']['args'][0])
+            if o['k'] == 'arg' and o['l'] in inv:
+                return ('bool', inv[o['l']])
+        return None
+    from rn import walk
+    rm = {s0.bb for s0 in b.calls(r'time_check_sync_remove_info_to_cluster$')}
+    up = {s0.bb for s0 in b.calls(r'time_check_sync_update_info_to_cluster$')}
+    ck.floor(R, 'cluster sync calls in time_check_notify', len(rm) + len(up), 2)
+    for rm_empty in (True, False):
+        for up_empty in (True, False):
+            env = {'rm_empty': rm_empty, 'up_empty': up_empty}
+            r = walk.walker(b, classify, env)
+            for (what, sites, empty) in (('removals', rm, rm_empty), ('unhealthy transitions', up, up_empty)):
+                may = bool(sites & r)
+                esc = walk.escapes_under(b, classify, env, sites)
+                must = may and not esc
+                key = 'time_check_notify:%s:remove_list %s, update_list %s' % (what.split()[0], 'empty' if rm_empty else 'filled', 'empty' if up_empty else 'filled')
+                if empty:
+                    ck.require(not may, R, key, b.where(), 'an empty list of %s is sent to the other nodes' % what, 'nothing to send')
+                else:
+                    ck.require(must, R, key, b.where(),
+                               'the %s of this round are not handed to the cluster sync on every path (reachable: %s, ways around it end at blocks %s): the other '
+                               'nodes keep the old state of these instances' % (what, may, esc), 'sent on every path')
